@@ -38,7 +38,7 @@ def run(sid):
     env = dict(os.environ, VERIF_REPLAY_DIR=root + '/replays', VSIM_STOP_ON_VIOLATION='1')
     t0 = time.time()
     r = subprocess.run(cmd, capture_output=True, text=True, timeout=7200, env=env)
-    lines = [l for l in r.stdout.splitlines() if l.startswith(('VIOLATION', '  violation', 'HARNESS', 'KNOWN'))]
+    lines = [l for l in r.stdout.splitlines() if l.startswith(('VIOLATION', '  violation', 'HARNESS'))]
     res = {0: 'MISSED', 1: 'caught'}.get(r.returncode, 'HARNESS-ERROR')
     return {'id': sid, 'property': prop, 'tier': tier, 'result': res, 'wall_s': round(time.time() - t0, 1),
             'lines': [l[:400] for l in lines[:4]], 'tail': r.stdout.splitlines()[-4:] if res != 'caught' else []}
